@@ -44,6 +44,7 @@ class Bus:
         self._fifo = {}
         self._delivering = set()
         self.taps = []                # callables(entry) called for every logged frame
+        self.dead = False
         self.k = 0
 
     def attach(self, node):
@@ -67,9 +68,17 @@ class Bus:
         else:
             self.silenced.discard(name)
 
+    MAX_FRAMES = 30000          # per case; beyond this the case is a frame storm (observation "storm")
+
     def transmit(self, node, frame):
         sim = self.sim
         name = node.name
+        if self.dead:
+            return
+        if len(self.log) >= self.MAX_FRAMES:
+            self.dead = True
+            sim.observe("storm", "more than %d frames on the bus in one case" % self.MAX_FRAMES)
+            return
         nk = self.k + 1
         sk = self.silence.get(name)
         if sk is not None and nk >= sk and (self.reconnect_at is None or sim.now < self.reconnect_at):
